@@ -53,6 +53,7 @@ pub struct DumpSpec {
     pub linux_maps: Option<String>,
     pub proc_status: Option<String>,
     pub proc_limits: Option<String>,
+    pub cpuinfo: Option<String>,
     pub lsb: Option<String>,
     pub extra_memory: Vec<(u64, Vec<u8>)>,
     /// modules named plugin*.dll share one PDB70 CodeView record with this pdb name
@@ -61,7 +62,7 @@ pub struct DumpSpec {
 impl Default for DumpSpec {
     fn default() -> Self {
         DumpSpec { big_endian: false, os: "windows".into(), cpu: "x86".into(), threads: vec![], has_thread_list: true, exception: None, breakpad: None,
-                   misc_pid: None, misc_create_time: None, modules: vec![], unloaded: vec![], memory_info: vec![], linux_maps: None, proc_status: None, proc_limits: None, lsb: None,
+                   misc_pid: None, misc_create_time: None, modules: vec![], unloaded: vec![], memory_info: vec![], linux_maps: None, proc_status: None, proc_limits: None, cpuinfo: None, lsb: None,
                    extra_memory: vec![], twin_pdb: None }
     }
 }
@@ -195,6 +196,7 @@ fn build_pass(spec: &DumpSpec, exc_ctx: (u32, u32)) -> Vec<u8> {
     if let Some(t) = &spec.linux_maps { d = d.set_linux_maps(t.as_bytes()); }
     if let Some(t) = &spec.proc_status { d = d.set_linux_proc_status(t.as_bytes()); }
     if let Some(t) = &spec.proc_limits { d = d.set_linux_proc_limits(t.as_bytes()); }
+    if let Some(t) = &spec.cpuinfo { d = d.set_linux_cpu_info(t.as_bytes()); }
     if let Some(t) = &spec.lsb { d = d.set_linux_lsb_release(t.as_bytes()); }
     d.finish().expect("synth dump")
 }
@@ -215,7 +217,7 @@ pub fn from_processor_case(c: &serde_json::Value) -> DumpSpec {
         let mut spec = DumpSpec { os: os.into(), cpu: cpu.into(), ..DumpSpec::default() };
         for (k, t) in c["threads"].as_array().unwrap().iter().enumerate() {
             let id = t["id"].as_u64().unwrap() as u32;
-            spec.threads.push(ThreadSpec { id, ctx_ok: t["ctxOk"].as_bool().unwrap(), name: if t["named"].as_bool().unwrap() { Some(format!("T{}", id)) } else { None },
+            spec.threads.push(ThreadSpec { id, ctx_ok: t["ctxOk"].as_bool().unwrap(), name: if t["named"] == "no" { None } else { Some(format!("T{}", id)) },
                                            ip: thread_ip(t["spot"].as_str().unwrap(), k), sp: if t["stk"] == "other" { OTHER_REGION } else { 0x10000 + 0x100 * k as u64 }, stack_base: 0x10000 + 0x100 * k as u64, stack: { let mut v = RA_THREAD.to_le_bytes().to_vec(); v.extend_from_slice(&[0u8; 8]); v } });
         }
         let e = &c["exc"];
@@ -236,7 +238,8 @@ pub fn from_processor_case(c: &serde_json::Value) -> DumpSpec {
         if matches!(c["misc"].as_str().unwrap(), "pid_times" | "nopid_times") { spec.misc_create_time = Some(1_600_000_000); }
         if c["status"] == "pid" { spec.proc_status = Some("Name:\tx\nPid:\t777\n".into()); }
         spec.extra_memory.push((OTHER_REGION, { let mut v = RA_OTHER.to_le_bytes().to_vec(); v.extend_from_slice(&[0u8; 8]); v }));
-        spec.modules = vec![ModuleSpec { base: 0x400000, size: 0x1000, name: "m1".into() }];
+        // mtop ends exactly at the top of the address space (base + size = 2^64): it is a module like any other
+        spec.modules = vec![ModuleSpec { base: 0x400000, size: 0x1000, name: "m1".into() }, ModuleSpec { base: 0xffff_ffff_ffff_0000, size: 0x1_0000, name: "mtop".into() }];
         // u3 covers none of the probed addresses but sorts between u1 and u2
         spec.unloaded = vec![ModuleSpec { base: 0x600000, size: 0x1000, name: "u1".into() }, ModuleSpec { base: 0x600800, size: 0x1000, name: "u2".into() },
                              ModuleSpec { base: 0x600400, size: 0x100, name: "u3".into() }];
